@@ -981,4 +981,37 @@ theorem C13_reachable_creation_iff (ops : List (Op ⊕ Forest.COp)) :
   fun r₁ h₁ r₂ h₂ p₁ p₂ a b ha hb =>
     C13_iff a b (C13_reachable_creation_valid ops r₁ h₁ p₁ a ha).1 (C13_reachable_creation_valid ops r₂ h₂ p₂ b hb).1
 
+/-- ⟦C13_reachable_creation_equivalence⟧ … an equivalence relation on the nodes such a history reaches: reflexive,
+    symmetric, transitive. -/
+theorem C13_reachable_creation_equivalence (ops : List (Op ⊕ Forest.COp)) :
+    (∀ r ∈ (creationRun ops).roots, ∀ (p : Path) (a : Tree), r.erase.at? p = some a → deepEqual a a = true) ∧
+    (∀ r₁ ∈ (creationRun ops).roots, ∀ r₂ ∈ (creationRun ops).roots,
+     ∀ (p₁ p₂ : Path) (a b : Tree), r₁.erase.at? p₁ = some a → r₂.erase.at? p₂ = some b →
+      deepEqual a b = deepEqual b a) ∧
+    (∀ r₁ ∈ (creationRun ops).roots, ∀ r₂ ∈ (creationRun ops).roots, ∀ r₃ ∈ (creationRun ops).roots,
+     ∀ (p₁ p₂ p₃ : Path) (a b c : Tree), r₁.erase.at? p₁ = some a → r₂.erase.at? p₂ = some b →
+      r₃.erase.at? p₃ = some c → deepEqual a b = true → deepEqual b c = true → deepEqual a c = true) :=
+  ⟨fun r h p a ha => C13_reflexive a (C13_reachable_creation_valid ops r h p a ha).1,
+   fun r₁ h₁ r₂ h₂ p₁ p₂ a b ha hb =>
+     C13_symmetric a b (C13_reachable_creation_valid ops r₁ h₁ p₁ a ha).1 (C13_reachable_creation_valid ops r₂ h₂ p₂ b hb).1,
+   fun r₁ h₁ r₂ h₂ r₃ h₃ p₁ p₂ p₃ a b c ha hb hc =>
+     C13_transitive a b c (C13_reachable_creation_valid ops r₁ h₁ p₁ a ha).1
+       (C13_reachable_creation_valid ops r₂ h₂ p₂ b hb).1 (C13_reachable_creation_valid ops r₃ h₃ p₃ c hc).1⟩
+
+/-- ⟦C13_reachable_creation_string_value⟧ `string_value` of every document or element node such a history reaches
+    is the concatenated text of its canonical form; `text_content_str`, when it answers, answers it. -/
+theorem C13_reachable_creation_string_value (ops : List (Op ⊕ Forest.COp)) :
+    ∀ r ∈ (creationRun ops).roots, ∀ (p : Path) (a : Tree),
+      r.erase.at? p = some a → (a.value = .document ∨ ∃ n, a.value = .element n) →
+      ∀ env' : Env, stringValue env' a = (canon a).text ∧
+        ∀ s, textContentStr a = some s → stringValue env' a = s := by
+  intro r hr p a ha hk env'
+  obtain ⟨va, la, _⟩ := C13_reachable_creation_valid ops r hr p a ha
+  exact ⟨C13_string_value env' a va la hk, fun s hs => C13_text_content_string_value env' a va la hk s hs⟩
+
+/-- Non-vacuity: `new_element; append_text "a"; append_element; append_text "b"` reaches `<e>a<e/>b</e>`, whose
+    root is an element; its string value is "ab". -/
+example : (creationRun [.inl (.newElement 2), .inr (.appendNew 0 (.text ['a'])), .inr (.appendNew 0 (.element 2)),
+    .inr (.appendNew 0 (.text ['b']))]).roots.map (fun r => (canon r.erase).text) = [['a', 'b']] := by decide +kernel
+
 end XotModel.Props
